@@ -115,11 +115,12 @@ def _worker(job):
     import diffpy.structure.spacegroups as _sgs
     _sgs.GetSpaceGroup(1)
     _sgs.FindSpaceGroup(_sgs.SpaceGroupList[0].symop_list)
-    for _fmt in ("cif", "auto", "xcfg", "pdb", "discus", "pdffit", "xyz", "rawxyz"):
-        try:
-            Structure().readStr("this is not a structure\n", _fmt)
-        except Exception:
-            pass
+    # (only successful parses before the first snapshot: state lost on an error path must show up as a difference)
+    import diffpy.structure.parsers.p_auto  # noqa
+    try:
+        import CifFile.yapps3_compiled_rt  # noqa
+    except Exception:
+        pass
     import locale
     import warnings
     import gc
@@ -495,8 +496,7 @@ def adversarial_docs(ck, base_docs):
     if xc:
         import re
         mrx = re.compile(r"^(\d+\.\d+)\n([A-Z][a-z]?)$", re.M)
-        mm = mrx.search(xc[0])
-        if mm:
+        for mm in mrx.finditer(xc[0]):
             for mass, sym in [("1e300", "Qq"), ("-5", "Qq"), ("nan", "Zz"), ("inf", "Xx9"), ("1e300", mm.group(2)), ("0.0001", "C"), ("12.0", "c"),
                               ("1e300", "__class__"), ("7", ""), ("1e300", "Uuo"), ("99999.9999", "D"), ("1", "Qq Rr")]:
                 t2 = xc[0][:mm.start()] + mass + "\n" + sym + xc[0][mm.end():]
@@ -529,6 +529,31 @@ def run_worker(job):
     if p.returncode != 0:
         raise common.Broken("C17 worker failed: " + p.stderr[-1500:])
     return json.loads(p.stdout)
+
+
+def run_parallel(job, n):
+    """split the items over n fresh worker processes (each with its own working directory); results in order"""
+    from concurrent.futures import ThreadPoolExecutor
+
+    parts = []
+    for i in range(n):
+        cwd = os.path.join(job["cwd"], "w%d" % i)
+        os.makedirs(cwd, exist_ok=True)
+        parts.append(dict(job, cwd=cwd, ops=job["ops"][i::n], docs=job["docs"][i::n]))
+    with ThreadPoolExecutor(max_workers=n) as ex:
+        rs = list(ex.map(run_worker, parts))
+    ops = [None] * len(job["ops"])
+    docs = [None] * len(job["docs"])
+    for i, r in enumerate(rs):
+        ops[i::n] = r["ops"]
+        docs[i::n] = r["docs"]
+    left = []
+    for i in range(n):
+        cwd = os.path.join(job["cwd"], "w%d" % i)
+        left += os.listdir(cwd)
+        shutil.rmtree(cwd, ignore_errors=True)
+    return {"ops": ops, "docs": docs, "setters_ok": all(r["setters_ok"] for r in rs),
+            "benign_compile_exec": sum(r["benign_compile_exec"] for r in rs), "leftover": left}
 
 
 def base_documents():
@@ -578,9 +603,9 @@ def _run(ck, rep, ok, info, wd):
     base = base_documents()
     ops = build_ops(ck)
     docs = adversarial_docs(ck, base)
-    job = {"src": os.path.join(common.REPO, "src"), "cwd": wd, "warmup": [{"fmt": f, "text": t} for f, t in base] + [{"fmt": "auto", "text": base[0][1]}],
+    job = {"src": os.path.join(common.REPO, "src"), "cwd": wd, "warmup": [{"fmt": f, "text": t} for f, t in base],
            "ops": [o[0] for o in ops], "docs": docs}
-    res = run_worker(job)
+    res = run_parallel(job, 10 if ck.tier == "quick" else 14)
     if not res["setters_ok"]:
         ck.fail("allowlist:p_cif:_atom_setters", "P_cif._atom_setters has a value that is not the name of a _tr_* method",
                 {"kind": "allow-list-support"}, no_failing_input=True)
@@ -653,7 +678,7 @@ def _run(ck, rep, ok, info, wd):
         rep = dict(rep, ncases=len(lst))
         ck.fail(key, "%s [%d case(s) with this key]" % (what, len(lst)), rep, no_failing_input=nfi)
     # leftovers in the working directory = effects
-    left = os.listdir(wd)
+    left = res.get("leftover", []) + os.listdir(wd)
     if left:
         ck.fail("audit:files", "files created in the working directory: %r" % left[:5], {"kind": "audit", "files": left}, no_failing_input=True)
     if not ok:
